@@ -110,7 +110,7 @@ def queries(ctx, sc):
 
 
 def make_cases(ctx, sc, impls, sections, queries_json, keys, select=None, walks=0, walk_len=8, cores=1,
-               max_edge_paths=None, rng=None, impl_caps=None):
+               max_edge_paths=None, rng=None, impl_caps=None, end_walks=None):
     cases = []
     ids = sc.ids()
     base = sc.base()
@@ -124,6 +124,18 @@ def make_cases(ctx, sc, impls, sections, queries_json, keys, select=None, walks=
         p = sc.random_walk(rng, walk_len)
         if p:
             walk_only.append(p)
+    # history-dependent hidden state (stale overlay entries, caches) is not a function of the abstract state, so
+    # besides the shortest prefixes, random histories are closed with the operation the property is about
+    if end_walks:
+        count, length, op = end_walks
+        for _ in range(count):
+            p = sc.random_walk(rng, rng.randint(2, length))
+            if not p:
+                continue
+            u = p[-1]["_to"]
+            closing = [e for e in sc.out[u] if e["ev"]["op"] == op]
+            if closing:
+                walk_only.append(p + [rng.choice(closing)])
     paths = edge_only + walk_only
     for impl in impls:
         ipaths = paths
@@ -146,7 +158,7 @@ def make_cases(ctx, sc, impls, sections, queries_json, keys, select=None, walks=
 
 
 def run_family(ctx, prop, scenarios, impls, sections, select=None, meta_rule="", level="model_checking",
-               assumptions=None, finish=True, max_paths=None, impl_caps=None):
+               assumptions=None, finish=True, max_paths=None, impl_caps=None, end_walks=None):
     """Common body of the MutableWorld family checks."""
     binary = ctx.go_build("vh-world")
     rng = random.Random(ctx.seed * 7919 + 13)
@@ -164,7 +176,8 @@ def run_family(ctx, prop, scenarios, impls, sections, select=None, meta_rule="",
         cases, npaths = make_cases(ctx, sc, impls, sections, qs, keys, select=select, walks=walks,
                                    walk_len=ctx.pick(8, 14), cores=ctx.pick(1, 3), rng=rng,
                                    max_edge_paths=(max_paths or {}).get(n, ctx.pick(900, None)) if ctx.quick else None,
-                                   impl_caps=(impl_caps or {}).get(n) if ctx.quick else None)
+                                   impl_caps=(impl_caps or {}).get(n) if ctx.quick else None,
+                                   end_walks=(end_walks[0] if ctx.quick else end_walks[1]) if end_walks else None)
         total_edges += len(sc.edges)
         total_paths += npaths
         if cases:
